@@ -195,6 +195,10 @@ func templates() [][]*Node {
 					stm(grp("case", stm(lit("1")), stm(lit("2"))), grp("block", stm(grp("return", stm(lit("1")), stm(idn("nil")))))),
 					stm(kwn("default"), grp("block", stm(grp("return", stm(lit("0")), stm(q("os", "ErrNotExist")))))))),
 			))},
+		// number literals written as raw tokens in the spellings that gofmt itself rewrites (upper-case prefixes and exponents)
+		{stm(kwn("var"), grp("defs", stm(idn("n1"), opn("="), idn("0XFF")), stm(idn("n2"), opn("="), idn("1E6")), stm(idn("n3"), opn("="), idn("0B101")),
+			stm(idn("n4"), opn("="), idn("0O17")), stm(idn("n5"), opn("="), idn("0x1P-2")), stm(idn("n6"), opn("="), idn("1_000")), stm(idn("n7"), opn("="), idn("0Xabc")),
+			stm(idn("n9"), opn("="), idn("0X1.8P1"))))},
 		{stm(kwn("var"), grp("defs", stm(idn("a"), opn("="), lit("1")), stm(idn("b"), opn("="), idn("T"), grp("values", &Node{K: "dict", Order: []int{1, 2}, Items: []*Node{
 			{K: "pair", Items: []*Node{stm(idn("A")), stm(lit("1"))}}, {K: "pair", Items: []*Node{stm(idn("B")), stm(q("x/d", "V"))}}}})))),
 			stm(kwn("const"), idn("c"), opn("="), lit("\"s\"")),
